@@ -1160,9 +1160,13 @@ func (n *normalizer) inline(call *ast.CallExpr, callee *types.Func, caller strin
 		walk(t)
 		return ok
 	}
+	ptmp := map[string]string{}
 	bind := func(name string, t types.Type, expr string, argType types.Type) {
 		tmp := fmt.Sprintf("%sa%d", pfx, argNo)
 		argNo++
+		if name != "" && name != "_" {
+			ptmp[name] = tmp
+		}
 		if argType != nil && types.Identical(argType, t) {
 			fmt.Fprintf(&sb, "var %s = %s\n", tmp, expr)
 		} else {
@@ -1257,6 +1261,7 @@ func (n *normalizer) inline(call *ast.CallExpr, callee *types.Func, caller strin
 			bind(pnames[nFixed], vt, types.TypeString(vt, qual)+"{"+strings.Join(es, ", ")+"}", nil)
 		}
 	}
+	preArgs := sb.String()
 	// results
 	var temps []string
 	var rnames []string
@@ -1318,6 +1323,38 @@ func (n *normalizer) inline(call *ast.CallExpr, callee *types.Func, caller strin
 			}
 		}
 		return applyEdits(n.text(a), n.off(a.Pos()), in)
+	}
+	// a predicate that is one expression ("return a == x || a == y") goes back where it came from: into the
+	// expression at the call site, parameters replaced by the argument temporaries. The condition then has the shape
+	// (and the short-circuit control flow) it had before the predicate was extracted.
+	if len(fd.Body.List) == 1 && len(returns) == 1 && len(temps) == 1 && len(subst) == 0 && ast.Stmt(returns[0]) == fd.Body.List[0] && len(returns[0].Results) == 1 {
+		rexpr := returns[0].Results[0]
+		if b, isB := sig.Results().At(0).Type().Underlying().(*types.Basic); isB && b.Kind() == types.Bool && types.Identical(info.TypeOf(rexpr), sig.Results().At(0).Type()) {
+			hasLit := false
+			var eds []edit
+			ast.Inspect(rexpr, func(x ast.Node) bool {
+				switch y := x.(type) {
+				case *ast.FuncLit:
+					hasLit = true
+					return false
+				case *ast.Ident:
+					if obj := info.Uses[y]; obj != nil && obj.Pos().IsValid() && obj.Pos() >= fd.Pos() && obj.Pos() < fd.End() {
+						if t, ok := ptmp[y.Name]; ok {
+							eds = append(eds, edit{n.off(y.Pos()), n.off(y.End()), t})
+						} else {
+							hasLit = true // a result name or something else local: not a plain expression
+						}
+					}
+				}
+				return true
+			})
+			if !hasLit {
+				lo := n.off(rexpr.Pos())
+				etext := applyEdits(n.src[calleeFile][lo:n.off(rexpr.End())], lo, eds)
+				n.res.Inlined = append(n.res.Inlined, fmt.Sprintf("%s <- %s @%s", caller, callee.Name(), n.fset.Position(call.Pos())))
+				return preArgs, []string{"(" + etext + ")"}, true
+			}
+		}
 	}
 	// body with returns rewritten
 	label := fmt.Sprintf("inl%d", k)
